@@ -117,6 +117,7 @@ pub fn check_frames(r: &Replay, g: &Game, c: &mut Case) {
         (None, false) => {} (a, b) => c.fail("C03", format!("start columns present={} but version {:?} has frame start={}", a.is_some(), v, b)) }
     match (&fr.end, gte(v,3,0)) { (Some(s), true) => {
         if let Some(col) = &s.latest_finalized_frame { if col.len() != n { c.fail("C04", format!("end column has {} rows for {} frames", col.len(), n)); } }
+        if let (None, Some(b)) = (&s.latest_finalized_frame, &s.validity) { if b.len() != n { c.fail("C04", format!("end column (no member below 3.7, rows counted by its validity bitmap) has {} entries for {} frames", b.len(), n)); } else if b.unset_bits() != 0 { c.fail("C04", "end column marks a frame's Frame End as absent".to_string()); } }
         if s.latest_finalized_frame.is_some() != gte(v,3,7) { c.fail("C03", "latest_finalized_frame presence does not match version".to_string()); }
         else if s.latest_finalized_frame.as_ref().map_or(true, |c| c.len() == n) { for i in 0..n { let mut p = r.frames[i].id.to_be_bytes().to_vec(); p.extend(&r.frames[i].end); let e = spec::decode(spec::END, v, &p); let a = dump::end_row(s, i); if a != e { c.fail("C03", format!("frame end row {}: {:?} != {:?}", i, a, e)); } } } }
         (None, false) => {} (a, b) => c.fail("C03", format!("end columns present={} but version {:?} has frame end={}", a.is_some(), v, b)) }
